@@ -46,7 +46,14 @@ HEADER_LENS = [1, 2, 6, 35, 255, 256, 257, 300, 65535, 65536, 70000]
 
 
 def _headers(draw):
-    kind = draw(st.sampled_from(["gpg-like", "gpg-like", "random", "boundary", "rich"]))
+    kind = draw(st.sampled_from(["gpg-like", "gpg-like", "random", "boundary", "rich", "other-octets"]))
+    if kind == "other-octets":
+        # GnuPG's layout with other values in the four leading octets (version, signature type, public-key algorithm, hash
+        # algorithm: 0x0a = SHA-512, 0x09 = SHA-384 ...): the library hashes them, it does not interpret them
+        h = bytearray(ref_openpgp.default_headers(draw(st.binary(min_size=20, max_size=20)).hex(), draw(st.integers(0, 2 ** 32 - 1))))
+        i = draw(st.integers(0, 3))
+        h[i] = draw(st.sampled_from([[3, 5, 6, 0, 255], [1, 0x10, 0x13, 0x18], [1, 17, 19, 27], [0x0a, 0x09, 0x0b, 0x02, 0x01]][i]))
+        return bytes(h)
     if kind == "rich":
         return draw(GE.HEADERS.filter(lambda h: h is not None and len(h) > 40 and h[:4] == bytes([4, 0, 22, 8])))
     if kind == "gpg-like":
